@@ -352,6 +352,7 @@ func RunModel(ctx *vrun.Ctx, prop string, m ModelCfg, timeout time.Duration) err
 			} else if m.Catalogue {
 				e.f = NewFactory(sc, NetOpts{Maturity: 2, BIP34: false}, e.seed)
 				e.f.Catalogue = true
+				e.f.HeaderMode = m.Headers
 				e.f.Preamble(5)
 			} else {
 				e.f = NewFactory(sc, NetOpts{Maturity: 1, BIP34: false}, e.seed)
